@@ -2,12 +2,39 @@
 import itertools
 
 import corebase as B
-from corebase import CHECK_MODS, CASE_TYPE, CORR, run_impl, encode, shrink  # noqa: F401
+from corebase import run_impl  # noqa: F401
 
 PROP = 'C11'
-PROPCHK = 'C11_prop'
-RELAX = [('F-C01-row-switch', 'C11_prop_switch')]
-RELAX_ALL = 'C11_prop_switch'
+CHECK_MODS = list(B.CHECK_MODS) + ['Checks.C11chk']
+CASE_TYPE = 'C11_case'
+CORR, PROPCHK = 'C11c_corr', 'C11c_prop'
+RELAX = [('F-C01-row-switch', 'C11c_prop_switch')]
+RELAX_ALL = 'C11c_prop_switch'
+
+
+def encode(case, obs):
+    return '(%s %s)' % ('C11_O' if case.get('obs_only') else 'C11_H', B.encode(case, obs))
+
+
+def shrink(case):
+    out = B.shrink(case)
+    for c in out:
+        if case.get('obs_only'):
+            c['obs_only'] = True
+    return out
+
+
+def corpus():
+    inh = dict(shape='inh', strategy='validity', changes=False, tracker=False, null_delete=False, autoflush=False, twin=False)
+    # a key of a single-table hierarchy that changes class within one transaction (subclass -> base, base -> subclass):
+    # one row for the (table, key) entity, operation UPDATE, holding the state of the last flushed change - and no
+    # value in a column the row's class does not have
+    return [dict(cfg=c, obs_only=True, prog=p_)
+            for c in (inh, dict(inh, strategy='subquery'))
+            for p_ in ([['add', 2, 1, {'a': 1, 'tracks': 5}], ['add', 0, 2, {'a': 1}], ['commit'], ['del', 2, 1], ['flush'],
+                        ['add', 0, 1, {'a': 2}], ['commit'], ['set', 0, 1, {'a': 3}], ['commit']],
+                       [['add', 0, 1, {'a': 1}], ['commit'], ['del', 0, 1], ['flush'], ['add', 2, 1, {'a': 2, 'tracks': 7}],
+                        ['commit']])]
 THEOREMS = ['C11_at_most_one_row', 'C11_operation_type_coalesces', 'C11_other_entities_do_not_interfere', 'C11_insert_kind_is_the_code',
             'C11_delete_kind_is_the_code', 'C11_operation_constants_are_the_code', 'C11_example']
 RULE = ('(enumerated) every sequence over {insert, update, delete, re-insert} of one key with every placement of flush '
